@@ -17,6 +17,8 @@
             if not self.connected_event.wait(timeout=timeout):         -- r1 (call) / r1w (parked)
                 raise TimeoutError()
             if not self.connected:                                     -- r2
+                if self.input_buffer:                                  -- r2b
+                    break             -- events that arrived before the end are returned first
                 raise DisconnectedError()
             if not self.input_event.wait(timeout=timeout):             -- r3 (call) / r3w (parked)
                 raise TimeoutError()
@@ -44,7 +46,13 @@
   events are a prefix of the arrivals" is literally `returned <+: arrived`.
 
   Ghost fields (never read by `step` to decide anything; they only record history):
-  `arrived`, `returned`, `signalled`, `seen`, `fresh`, `ended`, `recon`, `log`.
+  `arrived`, `returned`, `signalled`, `seen`, `fresh`, `ended`, `recon`, `endedRd`, `revived`, `log`.
+
+  "The connection has ended for good" is `ended`: the last connect / __disconnect_final handler that
+  started is `__disconnect_final`.  The schedules are not restricted to those in which "for good"
+  is true to its name: a connect handler may start after a final one (`revived` records that it
+  happened).  `receive()` reads `self.connected` (r2) and tests the buffer (r2b) in two accesses, so
+  `endedRd` records what `ended` was at the read.
 -/
 namespace Sio.Simple
 
@@ -71,7 +79,7 @@ inductive KPc
 
 inductive CPc
   | idle
-  | r0 | r1 | r1w | r2 | r3 | r3w | r4 | r5
+  | r0 | r1 | r1w | r2 | r2b | r3 | r3w | r4 | r5
   | e1 | e1w | e2 | e3
   deriving Repr, DecidableEq, Inhabited
 
@@ -111,6 +119,8 @@ structure View where
   fresh : Bool
   ended : Bool
   recon : Bool
+  endedRd : Bool
+  revived : Bool
   deriving Repr, DecidableEq, Inhabited
 
 structure State where
@@ -131,19 +141,22 @@ structure State where
   fresh : Bool              -- no connect / final handler has started yet
   ended : Bool              -- the last connect/final handler started is `final`
   recon : Bool              -- a disconnect handler ran and no connect/final has set the event since
+  endedRd : Bool            -- `ended` when receive() last read `self.connected` (r2)
+  revived : Bool            -- a connect handler has started after a __disconnect_final handler
   log : List (Outcome × View)
   deriving Repr, DecidableEq, Inhabited
 
 def init : State :=
   { buf := [], iev := false, cev := false, conn := false, ppc := .idle, kpc := .idle,
     cpc := .idle, tmo := false, woken := false, arrived := [], returned := [], signalled := 0,
-    seen := 0, fresh := true, ended := false, recon := false, log := [] }
+    seen := 0, fresh := true, ended := false, recon := false, endedRd := false, revived := false,
+    log := [] }
 
 def view (s : State) : View :=
   { pc := s.cpc, buf := s.buf, iev := s.iev, cev := s.cev, conn := s.conn, ppc := s.ppc,
     kpc := s.kpc, tmo := s.tmo, woken := s.woken, arrivedN := s.arrived.length,
     returnedN := s.returned.length, signalled := s.signalled, seen := s.seen, fresh := s.fresh,
-    ended := s.ended, recon := s.recon }
+    ended := s.ended, recon := s.recon, endedRd := s.endedRd, revived := s.revived }
 
 /-- the call in progress ends with outcome `o` -/
 def finish (s : State) (o : Outcome) : State :=
@@ -174,7 +187,8 @@ def connStep (s : State) (k : Conn) : State :=
   match s.kpc with
   | .idle =>
     match k with
-    | .connect => { s with conn := true, kpc := .connectMid, fresh := false, ended := false }
+    | .connect => { s with conn := true, kpc := .connectMid, fresh := false, ended := false,
+                           revived := s.revived || s.ended }
     | .disconnect => { s with cev := false, recon := true }
     | .final => { s with conn := false, kpc := .finalMid, fresh := false, ended := true }
   | .connectMid => { setConn s with kpc := .idle, recon := false }
@@ -202,7 +216,10 @@ def consStep (s : State) (ok : Bool) : State :=
     if s.buf.isEmpty then { s with cpc := .r1, seen := s.arrived.length } else { s with cpc := .r5 }
   | .r1 => if s.cev then { s with cpc := .r2 } else { s with cpc := .r1w, woken := false }
   | .r1w => if s.woken then { s with cpc := .r2, woken := false } else s
-  | .r2 => if s.conn then { s with cpc := .r3 } else finish s .disconnectedErr
+  | .r2 =>
+    if s.conn then { s with cpc := .r3, endedRd := s.ended }
+    else { s with cpc := .r2b, endedRd := s.ended }
+  | .r2b => if s.buf.isEmpty then finish s .disconnectedErr else { s with cpc := .r5 }
   | .r3 => if s.iev then { s with cpc := .r4 } else { s with cpc := .r3w, woken := false }
   | .r3w => if s.woken then { s with cpc := .r4, woken := false } else s
   | .r4 => { s with iev := false, cpc := .r0 }
